@@ -184,7 +184,7 @@ def one_case(ctx, rng, spec, prep_exprs, prep_meta, full_exprs, full_meta):
                           % (list(od), spec['contribs']), replay=rp)
     # (c) zero abundance / proportionality
     if 'Absorption' in spec['contribs'] and len(spec['gases']) >= 2:
-        g0 = spec['gases'][0]
+        g0 = rng.choice(spec['gases'])
         s0 = dict(spec, mix=dict(spec['mix'], **{g0: 0.0}))
         s1 = dict(spec, gases=[g for g in spec['gases'] if g != g0])
         with np.errstate(all='ignore'):
